@@ -54,7 +54,8 @@ prop("C13",
      ["C13."],
      [fam("mix","H",1200), fam("mix","L",1200), fam("nolimit","L",800), fam("evict","H",800), fam("expiry","L",800), fam("stream","H",800), fam("pool","P",600), fam("dfs-cancel","H",3000), fam("dfs-stream","L",3000)],
      [fam("mix","H",40000), fam("mix","L",40000), fam("nolimit","L",20000), fam("evict","H",20000), fam("evict","L",20000), fam("expiry","L",20000), fam("stream","H",20000), fam("stream","L",20000), fam("pool","P",20000),
-      fam("dfs-cancel","H",200000), fam("dfs-stream","L",200000), fam("dfs-evict","L",100000), fam("dfs-expiry","L",100000), fam("dfs-lock3","H",100000)])
+      fam("dfs-cancel","H",200000), fam("dfs-stream","L",200000), fam("dfs-evict","L",100000), fam("dfs-expiry","L",100000), fam("dfs-lock3","H",100000)],
+     cosim_ignore="order,stamp,value")
 
 
 prop("C03",
@@ -71,27 +72,29 @@ prop("C06",
      [fam("dfs-cancel","H",300000), fam("dfs-cancel","L",300000), fam("dfs-stream","L",300000), fam("dfs-stream","H",300000), fam("nolimit","H",40000), fam("nolimit","L",40000), fam("stream","L",40000), fam("stream","H",40000), fam("evict","L",20000), fam("mix","L",20000), fam("pool","P",20000)],
      cosim_ignore="order,stamp")
 prop("C07",
-     ["C07_offered", "C07_no_callback", "C07_no_limit_no_callback", "C07_bound", "C07_cooperative_round", "C07_cooperative_loop_terminates", "C07_witness"],
+     ["C07_offered", "C07_no_callback", "C07_no_limit_no_callback", "C07_bound", "C07_cooperative_round", "C07_cooperative_loop_terminates", "C07_cooperative_round_enabled", "C07_cooperative_loop_reaches_lookup", "C07_witness"],
      ["C07."],
      [fam("evict","H",2500), fam("evict","L",2500), fam("dfs-evict","L",4000), fam("dfs-evict","H",4000)],
-     [fam("evict","H",60000), fam("evict","L",60000), fam("dfs-evict","L",300000), fam("dfs-evict","H",300000), fam("mix","H",20000,"monitor")])
+     [fam("evict","H",60000), fam("evict","L",60000), fam("dfs-evict","L",300000), fam("dfs-evict","H",300000), fam("mix","H",20000,"monitor")],
+     cosim_ignore="order,stamp")
 prop("C08",
      ["C08_all_locked_proceeds", "C08_never_waits", "C08_callback_holds_nothing", "C08_reentrant", "C08_error_propagates", "C08_witness"],
      ["C08.", "C13.", "C07."],
      [fam("evict","H",2500), fam("evict","L",2500), fam("dfs-evict","L",4000), fam("dfs-evict","H",4000)],
-     [fam("evict","H",60000), fam("evict","L",60000), fam("dfs-evict","L",300000), fam("dfs-evict","H",300000)])
+     [fam("evict","H",60000), fam("evict","L",60000), fam("dfs-evict","L",300000), fam("dfs-evict","H",300000)],
+     cosim_ignore="order,stamp")
 prop("C09",
      ["C09_offer_is_lru_prefix", "C09_lookup_promotes", "C09_only_the_subject_key_moves", "C09_interval_order", "C09_offer_respects_order", "C09_witness"],
      ["C09."],
      [fam("seq","L",4000), fam("evict","L",3000), fam("dfs-evict","L",5000), fam("mix","L",1000)],
      [fam("seq","L",150000), fam("evict","L",100000), fam("dfs-evict","L",300000), fam("mix","L",40000)])
 prop("C10",
-     ["C10_call_is_total", "C10_exact", "C10_stamp_is_unlock_time", "C10_tick", "C10_witness", "C10_witness_max"],
+     ["C10_call_is_total", "C10_exact", "C10_stamp_is_unlock_time", "C10_tick", "C10_idle_entry_keeps_value_and_stamp", "C10_idle_entry_eventually_returned", "C10_witness", "C10_idle_witness", "C10_witness_max"],
      ["C10.", "C13.panic"],
      [fam("expiry","L",3000), fam("dfs-expiry","L",5000)],
      [fam("expiry","L",100000), fam("dfs-expiry","L",300000), fam("mix","L",40000)])
 prop("C11",
-     ["C11_snapshot", "C11_stream_step", "C11_never_yields_valueless", "C11_end_iff_done", "C11_first_poll_enabled", "C11_handed_poll_enabled", "C11_valueless_guard_is_dropped", "C11_witness"],
+     ["C11_snapshot", "C11_stream_step", "C11_never_yields_valueless", "C11_end_iff_done", "C11_first_poll_enabled", "C11_handed_poll_enabled", "C11_valueless_guard_is_dropped", "C11_exactly_once", "C11_complete_at_end", "C11_witness", "C11_trace_witness"],
      ["C11."],
      [fam("stream","H",2500), fam("stream","L",2500), fam("dfs-stream","L",4000), fam("dfs-stream","H",4000)],
      [fam("stream","H",60000), fam("stream","L",60000), fam("dfs-stream","L",300000), fam("dfs-stream","H",300000)])
@@ -109,7 +112,7 @@ prop("C15",
 
 
 prop("C05",
-     ["C05_guard_ops_refine_map", "C05_guard_ops_enabled", "C05_lock_free_key", "C05_variants_interchangeable", "C05_try_fails_when_locked", "C05_drop_sole_guard", "C05_lock_drop_absent_restores", "C05_witness"],
+     ["C05_guard_ops_refine_map", "C05_guard_ops_enabled", "C05_lock_free_key", "C05_variants_interchangeable", "C05_try_fails_when_locked", "C05_drop_sole_guard", "C05_lock_drop_absent_restores", "C05_call_refines", "C05_history_refines", "C05_history_deterministic", "C05_witness", "C05_history_witness"],
      ["C02.", "C04.", "C12.", "C05."],
      [fam("seq","H",3000), fam("seq","L",3000), fam("nocancel","H",1500), fam("nocancel","L",1500), fam("scale","L",2,"monitor")],
      [fam("seq","H",100000), fam("seq","L",100000), fam("nocancel","H",40000), fam("nocancel","L",40000), fam("mix","H",20000)],
